@@ -9,7 +9,7 @@ checks = []
 for pid in sorted(props):
     c = props[pid]
     proof = c['level'] == 'proof'
-    tech = "contract-based deductive verification: //@ contracts on the real functions, VCs from go/ssa, discharged by z3/cvc5" if proof else "bounded stand-in (exhaustive enumeration to a stated bound against spec functions written from the statement); contract proofs only for the parts named in the text"
+    tech = "contract-based deductive verification: //@ contracts on the real functions, VCs from go/ssa, discharged by z3/cvc5" if proof else "contract-based deductive verification of the parts named in the text (//@ contracts on the real functions, VCs from go/ssa, discharged by z3/cvc5); the property's main claim is decided by a bounded stand-in (exhaustive enumeration to a stated bound against spec functions written from the statement), labelled bounded and not counted as proved: " + ", ".join(c['bounded'])
     if proof and c['bounded']:
         tech += "; bounded stand-ins (labelled, not counted as proved) for the parts outside the contracts: " + ", ".join(c['bounded'])
     note = "trusted: " + ("; ".join(c.get('trusted_base') or ["Go toolchain, harness reference models"])) + ". assumed: " + ("; ".join(c.get('assumptions') or ["nothing beyond the stated bound"]))
